@@ -1,3 +1,5 @@
+#[path = "../text.rs"]
+mod text;
 fn main() {
-    chumsky_verif_harness::text::main();
+    text::main();
 }
